@@ -49,6 +49,23 @@ public:
         for (auto &details : m_observers)
             cachedDetails.emplace_front(details.observer.get(), details.subscriptionId);
 
+        // observers unsubscribed while a notification is in progress (possibly
+        // by their own callback) are kept alive until the outermost `notify`
+        // returns: they may still be executing or be inspected below
+        struct RoundGuard {
+            explicit RoundGuard(Subject &subject): m_subject(subject) {
+                ++m_subject.m_notifyDepth;
+            }
+
+            ~RoundGuard() {
+                if (--m_subject.m_notifyDepth == 0) {
+                    m_subject.m_graveyard.clear();
+                }
+            }
+
+            Subject &m_subject;
+        } roundGuard {*this};
+
         for (auto [observer, subscriptionId] : cachedDetails) {
             if (isSubscriptionIdValid(subscriptionId)) {
                 (*observer)(args...);
@@ -74,9 +91,15 @@ private:
     }
 
     void unsubscribeById(SubscriptionId subscriptionId) {
-        m_observers.remove_if([subscriptionId](const ObserverDetails &details) {
-            return details.subscriptionId == subscriptionId;
-        });
+        for (auto prev = m_observers.before_begin(), it = m_observers.begin(); it != m_observers.end(); prev = it++) {
+            if (it->subscriptionId == subscriptionId) {
+                if (m_notifyDepth > 0)
+                    m_graveyard.push_front(std::move(it->observer));
+
+                m_observers.erase_after(prev);
+                break;
+            }
+        }
 
         m_activeSubscriptions.erase(subscriptionId);
     }
@@ -91,6 +114,10 @@ private:
     std::set<SubscriptionId> m_activeSubscriptions;
 
     SubscriptionId m_subscriptionCounter {0};
+
+    // see `notify`
+    std::forward_list<ObserverPtr_t> m_graveyard;
+    size_t m_notifyDepth {0};
 };
 }
 
